@@ -12,6 +12,10 @@ coq/Proofs/GenEq_small_*.v rest on; everything else is checked on the source tex
      READS self, that every field is stored on every normally-ending path, that the bases are spelled as the
      spec says and (spec "facts") that the base class Timeline defines none of __init__, __new__, __setattr__,
      __init_subclass__.  TRUSTED: ABC / Generic (typing) do not intercept attribute stores or construction.
+     Also checked: outside __init__ no method stores a field again (any `<expr>.f = ..` with f a field name), except the
+     fields the spec declares mutable (CachedTimeline: _key_validated, _expiry_seq — state variables of the
+     cache model); the class does not use setattr / delattr / vars / __dict__.  So the fields a generated
+     fetch reads (self.before, self.gap, self.sources, ..) are the ones the generated __init__ stored.
  T2  An annotation in `self.f: T = e` has no run-time effect.
  T3  `*sources` / `*subtractors` is the tuple of the positional arguments in order (read as a list);
      `tuple(xs)` of a list has the same items in the same order; `xs.extend(ys)` appends the items of ys in order.
@@ -254,6 +258,7 @@ SPECS_SMALL = [
          annotations={"tuple[str, ...] | None": "O:KEYS", "MemoryTimeline": ["LIST", "L:COV"],
                       "list[tuple[float, int, CoverInterval]]": "L:HENT"},
          ignore_stores={"_lock": "threading.Lock()"}, empty_calls=["MemoryTimeline()"],
+         mutable_fields=["_key_validated", "_expiry_seq"],
          params=[("tl_is_mask", "TL -> bool"), ("source", "TL"), ("ttl", "Z"), ("key", "KEYARG")],
          attrs=MASK_ATTR),
     dict(name="g_cache_get_key", file=CACHE, cls="CachedTimeline", func="_get_key", kind="expr", res=True,
